@@ -135,6 +135,15 @@ K uint64_t k_fn_address(uint64_t b0, uint64_t b1, uint32_t invoke_first, uint32_
     return "\n".join(s) + "\n"
 
 
+def bm_two_bases(ctx):
+    """two disjoint 4 GiB regions at page-aligned (not size-aligned) bases"""
+    b0 = ctx.sandbox_base(32, "b0", aligned=False)
+    b1 = ctx.sandbox_base(32, "b1", aligned=False)
+    sz = BV(1 << 32, 64)
+    ctx.assume(z3.Or(z3.UGE(b0, b1 + sz), z3.UGE(b1, b0 + sz)))
+    return b0, b1
+
+
 def logs(q, lo, hi):
     return [e for e in (q.user.get("log") or []) if lo <= e[0] <= hi]
 
@@ -147,9 +156,7 @@ def check_sig(ctx, name, form):
     ctx.eng.max_strlen = 64
     ret, ps = SIGS[name]
     r = P[ret]
-    b0 = ctx.sandbox_base(32, "b0")
-    b1 = ctx.sandbox_base(32, "b1")
-    ctx.assume(b0 != b1)
+    b0, b1 = bm_two_bases(ctx)
     inst = ctx.sym("inst", 32)
     ctx.assume(z3.ULE(inst, 1))
     base = z3.If(inst == 0, b0, b1)
@@ -205,9 +212,7 @@ def check_sig(ctx, name, form):
 
 def check_two(ctx):
     ctx.eng.max_strlen = 64
-    b0 = ctx.sandbox_base(32, "b0")
-    b1 = ctx.sandbox_base(32, "b1")
-    ctx.assume(b0 != b1)
+    b0, b1 = bm_two_bases(ctx)
     first = ctx.sym("first", 32)
     v = ctx.sym("v", 64)
     ctx.assume(z3.ULE(first, 1), sext(v, 128) >= -(1 << 31), sext(v, 128) < (1 << 31))
@@ -226,9 +231,7 @@ def check_two(ctx):
 
 def check_fnaddr(ctx):
     ctx.eng.max_strlen = 64
-    b0 = ctx.sandbox_base(32, "b0")
-    b1 = ctx.sandbox_base(32, "b1")
-    ctx.assume(b0 != b1)
+    b0, b1 = bm_two_bases(ctx)
     inv = ctx.sym("invoke_first", 32)
     inst = ctx.sym("inst", 32)
     ctx.assume(z3.ULE(inv, 1), z3.ULE(inst, 1))
@@ -249,9 +252,7 @@ def check_fnaddr(ctx):
 
 def check_fnptr_arg(ctx):
     ctx.eng.max_strlen = 64
-    b0 = ctx.sandbox_base(32, "b0")
-    b1 = ctx.sandbox_base(32, "b1")
-    ctx.assume(b0 != b1)
+    b0, b1 = bm_two_bases(ctx)
     inst = ctx.sym("inst", 32)
     opq = ctx.sym("opaque", 32)
     ctx.assume(z3.ULE(inst, 1), z3.ULE(opq, 1))
